@@ -10,7 +10,7 @@ use std::sync::atomic::{AtomicU64, Ordering::Relaxed};
 
 // offset_uncertainty() = sqrt(variance) as an uninterpreted, per-source deterministic value
 // (memo keyed by the snapshot's index); its non-negativity is the only fact used.
-static UNC: [AtomicU64; 3] = [AtomicU64::new(0), AtomicU64::new(0), AtomicU64::new(0)];
+static UNC: crate::verif_common::Ghost<[AtomicU64; 3]> = crate::verif_common::Ghost::new(0x6748213b7249a404, [AtomicU64::new(0), AtomicU64::new(0), AtomicU64::new(0)]);
 fn offset_uncertainty_uf(s: &SourceSnapshot) -> f64 {
     f64::from_bits(UNC[(s.index.0 % 3) as usize].load(Relaxed))
 }
